@@ -98,6 +98,9 @@ func c10Workflow(r *Rand, tag string, inRepo bool) string {
 	if r.Chance(1, 3) {
 		job("    runs-on: ubuntu-latest\n    steps:\n      - run: echo ${{ unknownfn(1) }}\n")
 	}
+	if r.Chance(1, 3) { // matrix built from shared (global) context types plus literal entries
+		job("    strategy:\n      matrix:\n        include:\n          - ${{ " + r.Pick([]string{"github.event", "github.event.inputs", "fromJSON(github.event.client_payload)", "github.event.pull_request"}) + " }}\n          - extra_" + tag + ": v\n            os_" + tag + ": w\n    runs-on: ubuntu-latest\n    steps:\n      - run: echo ${{ matrix.extra_" + tag + " }}\n")
+	}
 	if inRepo && r.Chance(3, 4) { // local action of this repository
 		job("    runs-on: ubuntu-latest\n    steps:\n      - id: a\n        uses: ./act\n        with:\n          in_" + tag + ": x\n      - run: echo ${{ steps.a.outputs.out_" + tag + " }}\n")
 	}
